@@ -90,6 +90,7 @@ type nondet struct {
 
 // pathState is everything that belongs to one explored path.
 type pathState struct {
+	zverdicts map[string]int // zstd model: verdict per foreign frame (a decoder is deterministic)
 	env      map[string]value // process environment as set by the harness
 	syncMaps map[*value]*hashmap // sync.Map contents by receiver
 	pools map[*value][]value // sync.Pool contents (pools of the code under test only)
